@@ -701,8 +701,9 @@ def run_c13(ctx, spec):
                 if rng.random() < 0.08:
                     x = [2, [6, [1, 0], 0, TWO53, 0, 0, 0, [], 0]]     # the no-op, as an Action object
                 k = gen.pick_draw(wa[3])
+                cur_idx = len(runner.pool) - 1
                 for which in ("current", "older"):
-                    idx = len(runner.pool) - 1 if which == "current" else rng.randrange(len(runner.pool))
+                    idx = cur_idx if which == "current" else rng.randrange(len(runner.pool))
                     arg = runner.pool[idx]
                     before_arg = arg.tensor.tobytes()
                     before_env = snapshot(env)
@@ -731,7 +732,18 @@ def run_c13(ctx, spec):
                     if problems:
                         out["violations"].append(viol(pid, "generative_step is not pure: " + "; ".join(problems),
                                                       kind="genstep-record", history=ops[:], **where))
-                gen_out = outs[-2] if len(runner.pool) >= 2 else None   # the 'current' one
+                    if o[1][4][0] and wa[0] == 4 and rng.random() < 0.7:
+                        # a discarded successful exploit must leave no trace: probe the SAME argument state
+                        # again with exploits against other hosts (compared with the model afterwards)
+                        others = [j for j, fa in enumerate(flat) if fa[0] == 4 and fa[1] != wa[1]]
+                        for j in rng.sample(others, min(3, len(others))):
+                            x2 = [0, j] if modes[1] else [1, dyn.param_vector(rng, sd, flat[j])]
+                            op2 = [2, idx, x2, 0]
+                            ops.append(op2)
+                            outs.append(runner.run_op(op2))
+                            evals += 1
+                gen_out = next((oo for pp, oo in zip(reversed(ops), reversed(outs))
+                                if pp[0] == 2 and pp[2] == x and pp[3] == k and pp[1] == cur_idx), None)
                 cur_before = env.current_state
                 op = [1, x, k]
                 o = runner.run_op(op)
